@@ -674,6 +674,8 @@ fn odd_fs() -> Fs {
     fs.add(t, "dangling", K::Link("nowhere".into()));
     fs.add(t, "loop", K::Link("loop".into()));
     fs.add(t, "fifo", K::Fifo);
+    // a link that closes a directory cycle (diagnosed under -L)
+    fs.add(d, "up", K::Link("..".into()));
     fs
 }
 
